@@ -64,6 +64,7 @@ int __real_usleep(useconds_t);
 int __real_pthread_cond_timedwait(pthread_cond_t*, pthread_mutex_t*, const struct timespec*);
 
 time_t __wrap_time(time_t* t) {
+  if (!g.virtualTime.load(std::memory_order_relaxed)) return __real_time(t);
   std::lock_guard<std::recursive_mutex> l(g.mtx);
   time_t v = (time_t)(g.now / 1000000000LL);
   if (t) *t = v;
@@ -71,7 +72,7 @@ time_t __wrap_time(time_t* t) {
 }
 
 int __wrap_clock_gettime(clockid_t id, struct timespec* ts) {
-  if (id != CLOCK_REALTIME) return __real_clock_gettime(id, ts);
+  if (id != CLOCK_REALTIME || !g.virtualTime.load(std::memory_order_relaxed)) return __real_clock_gettime(id, ts);
   std::lock_guard<std::recursive_mutex> l(g.mtx);
   ts->tv_sec = (time_t)(g.now / 1000000000LL);
   ts->tv_nsec = (long)(g.now % 1000000000LL);
@@ -179,6 +180,7 @@ int __wrap_close(int fd) {
 }
 
 int __wrap_usleep(useconds_t us) {
+  if (!g.virtualTime.load(std::memory_order_relaxed)) return __real_usleep(us);
   std::lock_guard<std::recursive_mutex> l(g.mtx);
   g.now += (int64_t)us * 1000LL;
   return 0;
